@@ -42,7 +42,8 @@ PROPS = {
         "trusted_base": ["LoRaWAN 1.0 section 6.2 transcribed as Spec/Lorawan.lean (join part)"],
     },
     "C05": {
-        "theorems": thms(P + "C05", ["C05_reused_nonce_ignored", "addNonce_fresh", "addNonce_stores", "C05_second_insert_fails", "C05_failed_insert_stops"]),
+        "theorems": {**thms(P + "C05", ["C05_keyed_once", "C05_keychange_records", "C05_reused_nonce_ignored", "byEUI_nonces", "addNonce_fresh", "addNonce_stores", "C05_second_insert_fails", "C05_failed_insert_stops"]),
+                     **thms("LospanVerif.Proofs.Circ", ["kinv_run", "k_step", "k_after", "jn_stepJoin"])},
         "ties": PIPE_TIES,
         "engines": ["pipeseq", "pipectl"],
         "assumptions": ["AddDevNonce is one atomic INSERT with primary key (device, nonce)"],
@@ -190,9 +191,9 @@ MANIFEST_TEXT = {
         "technique": "Lean 4 proof (authentication decision, key derivation = spec, join-accept decodes) + correspondence against the Lean spec device",
     },
     "C05": {
-        "level": "Lean theorems: a nonce in the device's history stops the handler with no effect (check on); the nonce insert succeeds only for a fresh nonce and stores it, after which every insert of it fails — whichever handler, whenever — and a handler whose insert fails stops before any key change. Hence at most one of any number of concurrent copies gets past the insert. Sequential histories with reused/fresh nonces, restarts and both switch values: state comparison on the real pipeline plus oracle (stored keys = keys the spec device derives from the last join-accept).",
-        "note": "atomicity of the INSERT with its primary key is SQLite's; concurrent copies are exercised by the controlled engine once built",
-        "technique": "Lean 4 proof (insert-once lemma + handler decision logic) + sequential trace correspondence",
+        "level": "Lean theorems. For EVERY event list (any number of copies of a join-request through any number of gateways, every interleaving of their handlers at storage-operation granularity, injected faults, crashes and restarts): with the check on, no (device, DevNonce) leads to a key change twice and every key change was preceded by the insert of its nonce into the nonce table (C05_keyed_once: the thread-pool invariant of Proofs/Circ.lean instantiated for joins - held = the handler between its nonce insert and the key change, issued = the table with primary key (device, nonce)); a stored nonce makes every later insert fail (C05_second_insert_fails), a failed insert stops the handler (C05_failed_insert_stops), a nonce in the history the handler read stops it at once (C05_reused_nonce_ignored). The 'stored session = last join-accept' clause is decided on the real pipeline: every emitted join-accept is processed by the Lean device and the derived keys, address and zeroed counters compared with the stored ones after every event, for both switch values, also under copies schedules.",
+        "note": "partial: the session-agreement clause is an oracle on the implementation (Spec device), not a theorem; atomicity of the INSERT is trusted (SQLite primary key)",
+        "technique": "Lean 4 proof (thread-pool invariant by induction over all event lists; decision logic) + regenerated handler skeleton tie + trace correspondence + Spec-device oracle",
     },
     "C06": {
         "level": "Lean theorems for every state: the message picked for an accepted uplink is an unsent message of that device and none of its unsent messages is older; what is put into and taken out of the output buffer is that message's port and bytes with the confirmed type iff requested; buffers of different devices are independent; the encoding is the spec's (C02). Histories of submissions and uplinks of several devices: every emitted frame compared byte for byte with the model (which encodes with the Lean AES) on the real pipeline.",
